@@ -407,6 +407,16 @@ def shifted(v):
 ''', '''
 mon.write(shifted(a))
 '''),
+    "fn_local_shadow": ('''
+base = 5
+
+def bump(v):
+    base = v + 1
+    return base
+''', '''
+mon.write(bump(a))
+mon.write(base)
+'''),
     "fn_early_return": ('''
 def clampv(v):
     if v > 100:
@@ -796,6 +806,22 @@ def fold_family(tier="quick") -> List[Tuple[str, str]]:
     cases["rgb_lit"] = H2 + "rgb = RGBLed(3, 5, 6)\nwhile True:\n    rgb.set_color(10 + 5, 2 * 10, 30)\n"
     cases["rgb_var"] = H2 + "rgb = RGBLed(3, 5, 6)\nr = 10\nwhile True:\n    rgb.set_color(r + 5, r * 2, 30)\n"
     cases["rgb_var_mut"] = H2 + "rgb = RGBLed(3, 5, 6)\nr = 10\nwhile True:\n    rgb.set_color(r, 0, 0)\n    r = r + 10\n"
+    # mutually exclusive arms: what one arm assigns must not be visible when folding a sibling arm (prologue: runs once)
+    RD = 'v = analog_read("A0")\n'
+    TAIL = "while True:\n    mon.write(0)\n"
+    cases["sibling_str_len_else"] = H2 + 's = "ab"\n' + RD + 'if v > 500:\n    s = "abcd"\n    mon.write(1)\nelse:\n    mon.write(len(s))\nmon.write(s)\n' + TAIL
+    cases["sibling_str_len_elif"] = H2 + 's = "ab"\n' + RD + 'if v > 500:\n    s = "abcd"\nelif v > 100:\n    mon.write(len(s))\nelse:\n    sleep(len(s) * 10)\n' + TAIL
+    cases["sibling_list_len_else"] = H2 + 'xs = [1, 2]\n' + RD + 'if v > 500:\n    xs.append(3)\n    mon.write(1)\nelse:\n    mon.write(len(xs))\n' + TAIL
+    cases["sibling_pattern_else"] = H2 + 'led = Led(9)\npat = [1, 0]\n' + RD + 'if v > 500:\n    pat = [0, 1, 1]\n    mon.write(1)\nelse:\n    led.flash_pattern(pat, 10)\n' + TAIL
+    cases["sibling_const_sleep_else"] = H2 + 'k = 1\n' + RD + 'if v > 500:\n    k = 2\n    mon.write(1)\nelse:\n    sleep(k * 10)\n    mon.write(k)\n' + TAIL
+    cases["sibling_const_nested"] = H2 + 'k = 1\n' + RD + 'if v > 500:\n    if v > 900:\n        k = 5\n    else:\n        sleep(k * 10)\nelse:\n    sleep(k * 20)\n' + TAIL
+    cases["sibling_try_except"] = H2 + 'k = 1\ntry:\n    k = 2\n    sleep(k * 10)\nexcept:\n    sleep(k * 30)\nmon.write(7)\n' + TAIL
+    # a parameter hides a global constant of the same name
+    cases["param_shadows_const_int"] = H2 + "k = 4\ndef wait(k):\n    sleep(k * 5)\nwhile True:\n" + READ_AB + "    wait(a + 600)\n    wait(3)\n"
+    cases["param_shadows_const_str"] = H2 + 'text = "ab"\ndef count_chars(text):\n    return len(text)\nn = count_chars("hello")\nmon.write(n)\nwhile True:\n    sleep(n * 10)\n    mon.write(len(text))\n'
+    cases["param_shadows_const_list"] = H2 + 'xs = [1, 2]\nys = [4, 5, 6]\ndef size(xs):\n    return len(xs)\nn = size(ys)\nmon.write(n)\nwhile True:\n    sleep(n * 10)\n    mon.write(len(xs))\n'
+    cases["param_shadows_pin"] = H2 + "pin = 9\ndef level(pin):\n    return pin + 1\nled = Led(pin)\nwhile True:\n" + READ_AB + "    led.set_brightness(level(a + 600) // 8)\n"
+    cases["local_shadows_const"] = H2 + "k = 4\ndef wait(n):\n    k = n + 1\n    sleep(k * 5)\nwhile True:\n" + READ_AB + "    wait(a + 600)\n    sleep(k)\n"
     cases["tuple_consts"] = H2 + "p, q = 3, 4\np, q = q, p + q\nwhile True:\n    sleep(p * 10)\n    sleep(q * 10)\n"
     return [(f"fold/{k}", v) for k, v in cases.items()]
 
